@@ -26,11 +26,25 @@ SCENARIOS = {
     'freeT': dict(mode='free', matter='T', input_form='tensor', order=1),
     # only the shift component beta^y supplied (x, z default to 0)
     'shift_y': dict(mode='free', matter='none', input_form='components', shift='y', order=1),
+    'shift_x': dict(mode='free', matter='none', input_form='components', shift='x', order=1),
+    'shift_z': dict(mode='free', matter='none', input_form='components', shift='z', order=1),
     'noshift': dict(mode='free', matter='none', input_form='tensor', shift='zero', order=1),
     # nothing supplied at all: every quantity must follow from the documented defaults
     'default': dict(mode='free', matter='none', input_form='none', shift='zero', lapse='one', with_K=False,
                     flat=True, order=1),
 }
+
+
+def shape_inputs(scen, U, F):
+    """which inputs the user supplies in this scenario (shared by the exact worlds and the float worlds of the replay)"""
+    if scen in ('shift_x', 'shift_y', 'shift_z'):
+        keep = scen[-1]
+        U.drop_inputs(*[f'beta{a}' for a in 'xyz' if a != keep], 'dtbetax', 'dtbetay', 'dtbetaz')
+        U.base['dtbeta'] = arr([J.const(F, 0)] * 3)
+    if scen == 'noshift':
+        U.drop_inputs('betaup3', 'dtbetaup3')
+    if scen == 'default':
+        U.drop_inputs('alpha', 'dtalpha')
 
 
 def make_world(scen, seed):
@@ -42,13 +56,7 @@ def make_world(scen, seed):
         rng = random.Random(f'{scen}/{seed}/{attempt}')
         try:
             U = Universe(F, rng, **kw)
-            if scen == 'shift_y':
-                U.drop_inputs('betax', 'betaz', 'dtbetax', 'dtbetaz', 'dtbetay')
-                U.base['dtbeta'] = arr([J.const(F, 0)] * 3)
-            if scen == 'noshift':
-                U.drop_inputs('betaup3', 'dtbetaup3')
-            if scen == 'default':
-                U.drop_inputs('alpha', 'dtalpha')
+            shape_inputs(scen, U, F)
             return F, U, Env(F)
         except NeedResample as e:
             last = e
